@@ -7,8 +7,10 @@ import AsyncsshModel.Model.HostTrust
       `_process_kexinit` (`Key exchange already in progress`), `_process_newkeys`, `_process_service_accept`,
       `_process_userauth_failure`, `send_packet`'s deferral rule, `send_newkeys`
       (NEWKEYS, then on the first exchange `send_service_request(ssh-userauth)`, then the deferred packets);
-    * kex_dh.py `_process_reply` / kex_rsa.py `_process_done`: `validate_server_host_key(blob)` FIRST, then
-      `key.verify(h, sig)` with the key it returned, and only then `send_newkeys`.
+    * kex_dh.py `_process_reply` / kex_rsa.py `_process_done`: `validate_server_host_key(blob, sig)` FIRST
+      (the blob must fit the negotiated host key algorithm and be trusted, the signature must name that
+      algorithm's signature algorithm), then `key.verify(h, sig)` with the key it returned, and only then
+      `send_newkeys`.
   One `step` is one packet handler run to completion (no await inside these handlers).
 
   The signature scheme is a parameter (`verify`); the exchange hash `h` the client computes and the blob's
@@ -37,6 +39,8 @@ inductive Ev (Hash Sig : Type) where
 
 inductive Err where
   | hostKeyNotVerifiable (r : Reject) | keyExchangeFailed | protocolError | serviceNotAvailable | permissionDenied
+  /-- KeyExchangeFailed('Key exchange signature algorithm mismatch') -/
+  | sigAlgMismatch
   deriving Repr, DecidableEq
 
 /-- Trace: decisions taken and packets put on the wire by the client. -/
@@ -77,9 +81,27 @@ structure Cfg (Hash Sig : Type) where
   addr : String
   port : Nat
   verify : KeyId → Hash → Sig → Bool
+  /-- the decoded blob can be used with the host key algorithm this connection negotiated -/
+  keyAlgOk : Presented → Bool
+  /-- the signature names the signature algorithm of the host key algorithm this connection negotiated -/
+  sigAlgOk : Sig → Bool
 
 def fail {Hash : Type} (s : St) (e : Err) (pre : List (Out Hash) := []) : St × List (Out Hash) :=
   ({ s with closed := true, kex := false }, pre ++ [.disconnect e])
+
+/-- `validate_server_host_key(key_data)`: `_validate_host_key(.., key_data, self._host_key_alg)` — decode,
+    compare with the negotiated host key algorithm, trust decision; the error is the exception raised together
+    with the reason recorded in the trace.  The key it returns accepts only signatures that name the signature
+    algorithm of the negotiated host key algorithm (`host_key.all_sig_algorithms = {get_signature_alg(..)}`): in
+    `step` the verification `host_key.verify(h, sig)` therefore succeeds only if `sigAlgOk sg` as well (`sg` is
+    kept as a parameter here so that callers read the same as before) -/
+def validateServerHostKey {Hash Sig : Type} (cfg : Cfg Hash Sig) (now4 : Nat) (p : Presented) (sg : Sig) :
+    Except (Err × Reject) KeyId :=
+  if p ≠ .garbage ∧ cfg.keyAlgOk p = false then .error (.hostKeyNotVerifiable .algMismatch, .algMismatch)
+  else
+    match validateHostKey cfg.trust cfg.app cfg.host cfg.addr cfg.port now4 p with
+    | .error r => .error (.hostKeyNotVerifiable r, r)
+    | .ok k => .ok k
 
 def step {Hash Sig : Type} (cfg : Cfg Hash Sig) (s : St) (ev : Ev Hash Sig) : St × List (Out Hash) :=
   if s.closed then (s, []) else
@@ -90,10 +112,10 @@ def step {Hash Sig : Type} (cfg : Cfg Hash Sig) (s : St) (ev : Ev Hash Sig) : St
   | .kexReply p h sg now4 =>
     if !s.kex then fail s .protocolError      -- 'Key exchange not in progress'
     else
-      match validateHostKey cfg.trust cfg.app cfg.host cfg.addr cfg.port now4 p with
-      | .error r => fail s (.hostKeyNotVerifiable r) [.hostKeyRejected r]
+      match validateServerHostKey cfg now4 p sg with
+      | .error (e, r) => fail s e [.hostKeyRejected r]
       | .ok k =>
-        if cfg.verify k h sg then
+        if cfg.verify k h sg && cfg.sigAlgOk sg then
           -- send_newkeys
           let first := !s.haveSession
           let s' := { s with kex := false, kexComplete := true, haveSession := true, nextRecvEnc := true,
